@@ -165,18 +165,21 @@ def case_cell(ctx, p):
     mon.config("stratum:" + p["stratum"])
     if max(abs(a - 90.0) for a in c[3:]) > 5.0:
         mon.nontriv(c)
+    fk = int(round(c[0] * 1e6)) % 4
     for mod, k, m in ((ctx.T, oracle.TWO_PI, "tools"), (ctx.L, 1.0, "laue")):
-        A = mod.form_a_mat(c)
-        B = mod.form_b_mat(c)
-        V = mod.cell_volume(c)
+        cf = gen.as_form(c, fk)            # list / tuple / float array of the same six numbers
+        mon.config("argument form:%s" % type(cf).__name__)
+        A = mod.form_a_mat(cf)
+        B = mod.form_b_mat(cf)
+        V = mod.cell_volume(cf)
         mon.close("workload:%s.detA=volume" % m, np.linalg.det(A), V, rtol=RTOL)
         _cells_equal(mon, "workload:%s.a_to_cell(form_a_mat)" % m, mod.a_to_cell(A), c)
         _cells_equal(mon, "workload:%s.b_to_cell(form_b_mat)" % m, mod.b_to_cell(B), c)
-        _cells_equal(mon, "workload:%s.cell_invert^2" % m, mod.cell_invert(mod.cell_invert(c)), c)
-        Ai = mod.form_a_mat_inv(c)
+        _cells_equal(mon, "workload:%s.cell_invert^2" % m, mod.cell_invert(mod.cell_invert(cf)), c)
+        Ai = mod.form_a_mat_inv(cf)
         mon.close("workload:%s.form_a_mat_inv*form_a_mat" % m, Ai @ A, np.eye(3), rtol=0, atol=1e-8)
-        for h in p["hkls"]:
-            s = mod.sintl(c, h)
+        for n_h, h in enumerate(p["hkls"]):
+            s = mod.sintl(cf, gen.as_form(h, fk + n_h))
             mon.close("workload:%s.sintl=|B.h|/2k" % m, s, np.linalg.norm(B @ np.asarray(h, float)) / (2 * k),
                       rtol=RTOL, atol=1e-13)
             # argument forms users pass: lists, tuples, integer and float arrays
